@@ -874,6 +874,106 @@ func checkGate(c gateCase) error {
 	return nil
 }
 
+// ---------------------------------------------------------------------------------------------
+// every presentable type with a syntax fault in its RDATA, followed by another record: the fault
+// must be reported, or - if the parser reads the line leniently - nothing after it may be lost
+
+type typeFaultCase struct {
+	Sample string
+	Fault  string // "close-end", "close-mid", "quote-end", "open-end", "close-open-end"
+	Text   string `json:",omitempty"` // rendered text (rapid variant); empty = canonical
+}
+
+var typeFaults = []string{"close-end", "close-mid", "quote-end", "open-end", "close-open-end", "quote-mid"}
+
+// Known finding: the RDATA loops of some types swallow the lexer's error token.
+const kSwallowed = "swallowed-lexer-error"
+
+// swallowTypes are the types whose RDATA readers skip the lexer's error token on the pinned tree
+// (excluded from the enumeration while the finding is listed and reproduces).
+var swallowTypes = map[string]bool{}
+
+func faultText(c typeFaultCase) (string, bool) {
+	sm, ok := zm.SampleByName(c.Sample)
+	if !ok {
+		return "", false
+	}
+	toks := append([]string(nil), sm.Tokens...)
+	switch c.Fault {
+	case "close-end":
+		toks = append(toks, ")")
+	case "close-mid":
+		toks = append(toks[:1], append([]string{")"}, toks[1:]...)...)
+	case "quote-end":
+		toks = append(toks, "\"")
+	case "quote-mid":
+		toks = append(toks[:1], append([]string{"\""}, toks[1:]...)...)
+	case "open-end":
+		toks = append(toks, "(")
+	case "close-open-end":
+		toks = append(toks, ")", "(")
+	default:
+		return "", false
+	}
+	return "first.example.org. 300 IN " + sm.Name + " " + strings.Join(toks, " ") + "\nnext.example.org. 600 IN A 192.0.2.1\nlast.example.org. 600 IN A 192.0.2.2\n", true
+}
+
+func checkTypeFault(c typeFaultCase) error {
+	text, ok := faultText(c)
+	if !ok {
+		pbt.Note(nil, false, "invalid-case")
+		return nil
+	}
+	pbt.Note([]byte(text), true, "type-fault:"+c.Sample, "fault:"+c.Fault)
+	return evalTypeFault(c, text)
+}
+
+func evalTypeFault(c typeFaultCase, text string) error {
+	files := map[string]string{"f.db": text}
+	cfg := parserCfg{File: "f.db", Origin: "example.org."}
+	out, viol := runParser(files, cfg, nil)
+	if viol != nil {
+		return pbt.Errf("%v\n%q", viol, text)
+	}
+	if out.Err != nil {
+		// reported: nothing of the later lines may have been returned before the error unless
+		// the faulty line itself was read leniently (then the error belongs to a later line)
+		return nil
+	}
+	// no error: the fault was read leniently; then the records of the following lines must all
+	// be there (an unreported problem must not make the parser drop the rest of the file)
+	if !hasOwner(out.First, "next.example.org.") || !hasOwner(out.First, "last.example.org.") {
+		return pbt.Errf("%s with fault %s: no error is reported and the records of the following lines are missing (%d records returned: %v)\n%q", c.Sample, c.Fault, out.N, out.First, text)
+	}
+	return nil
+}
+
+func eachTypeFault(emit func(typeFaultCase)) {
+	for _, sm := range zm.Samples {
+		for _, f := range typeFaults {
+			if (f == "close-mid" || f == "quote-mid") && len(sm.Tokens) < 2 {
+				continue
+			}
+			if pbt.Known(kSwallowed) && swallowsOnPinnedTree(sm.Name, f) {
+				pbt.Excluded(kSwallowed)
+				continue
+			}
+			emit(typeFaultCase{Sample: sm.Name, Fault: f})
+		}
+	}
+}
+
+// swallowsOnPinnedTree delimits the class of the known finding swallowed-lexer-error: types
+// whose RDATA is read by a loop "until newline or end of input" that does not look at the
+// lexer's error flag, with a fault the lexer reports through that flag.
+func swallowsOnPinnedTree(sample, fault string) bool {
+	switch sample {
+	case "LOC", "CSYNC", "NSEC", "NXT", "NSEC3", "HIP", "SVCB", "HTTPS", "APL":
+		return fault == "close-end" || fault == "close-open-end" || fault == "close-mid"
+	}
+	return false
+}
+
 func init() {
 	// a $GENERATE whose template has a modifier that is rejected while the expansion is read (the
 	// error surfaces in the middle of a generated line) returns a record built from the truncated
@@ -906,6 +1006,7 @@ func init() {
 	pbt.Register(pbt.Sub[faultCase]{Name: "fault-localisation", Weight: 5, Gen: genFault, Check: checkFault})
 	pbt.Register(pbt.Sub[gateCase]{Name: "gate", Weight: 0.2, Gen: genGate, Check: checkGate})
 	pbt.RegisterEnum(pbt.Enum[gateCase]{Name: "gate-table", Exhaustive: true, Each: eachGate, Check: checkGate})
+	pbt.RegisterEnum(pbt.Enum[typeFaultCase]{Name: "type-fault", Exhaustive: true, Each: eachTypeFault, Check: checkTypeFault})
 	// replay targets for inputs found by the native fuzz targets (no generated cases of their own:
 	// the rapid counterpart of FuzzZoneParser is "mutated")
 	pbt.RegisterEnum(pbt.Enum[hostileCase]{Name: "fuzz-zone", Each: func(emit func(hostileCase)) {
